@@ -348,4 +348,27 @@ example : ∃ s, Reachable 3 s ∧ (s.nodes 0).role = .leader ∧ (s.nodes 0).co
   · exact Or.inl rfl
   · exact Or.inr (by omega)
 
+/-- **The vote threshold is a STRICT majority.** The model's `isMajority N count` is `N < 2·count`, the code's
+`votesCount > (len(otherNodes)+1) / 2` (true division).  The variant `votesCount >= (len(otherNodes)+2) // 2`
+(seeded change C05-14) agrees with it for odd sizes and for 2 voters but accepts exactly HALF of an even
+cluster: for every `k > 0` and `N = 2k` voters the `>=` test passes with `k` votes while `k` votes are no
+majority. -/
+theorem ge_vote_threshold_counterexample (k : Nat) (hk : 0 < k) :
+    k ≥ ((2 * k - 1) + 2) / 2 ∧ isMajority (2 * k) k = false := by
+  refine ⟨by omega, ?_⟩
+  simp [isMajority]
+
+/-- … pinned on 4 voters: 2 votes pass the `>=` test, are no majority, and the two halves `[0,1]`, `[2,3]`
+are disjoint vote sets (no quorum intersection: both halves can elect a leader in the same term — every
+theorem of this file and of C01–C04 rests on `quorum_inter`, which needs the strict test). -/
+theorem ge_vote_threshold_four_nodes_counterexample :
+    (2 ≥ (3 + 2) / 2) ∧ isMajority 4 2 = false ∧ isMajority 4 3 = true ∧
+    ¬ IsQuorum 4 [0, 1] ∧ ¬ IsQuorum 4 [2, 3] ∧ (∀ x ∈ [0, 1], x ∉ [2, 3]) := by
+  refine ⟨by decide, by decide, by decide, ?_, ?_, by decide⟩ <;> simp [IsQuorum]
+
+/-- The strict test is what the election theorems use: with the model's threshold any two vote sets
+that elect a leader intersect (odd and even sizes alike). -/
+example {N : Nat} {A B : List Nat} (hA : IsQuorum N A) (hB : IsQuorum N B) : ∃ x, x ∈ A ∧ x ∈ B :=
+  quorum_inter hA hB
+
 end PSO.C05
